@@ -136,6 +136,7 @@ static int process_completed_fragment(sqfs_block_processor_t *proc,
 	int err;
 
 	if (frag->flags & SQFS_BLK_IS_SPARSE) {
+		VERIF_PROBE("frag_sparse");
 		if (frag->inode != NULL) {
 			sqfs_inode_make_extended(*(frag->inode));
 			err = set_block_size(frag->inode, frag->index, 0);
@@ -181,6 +182,8 @@ static int process_completed_fragment(sqfs_block_processor_t *proc,
 		size_t size = proc->frag_block->size + frag->size;
 
 		if (size > proc->max_block_size) {
+			if (proc->fblk_in_flight != NULL)
+				VERIF_PROBE("frag_block_sealed_while_other_in_flight");
 			proc->frag_block->io_seq_num = proc->io_seq_num++;
 
 			err = enqueue_block(proc, proc->frag_block);
